@@ -38,7 +38,7 @@ theorem sel_time_btw (e : Env α) (r : Row α) (a b : α) :
     sel e (.btw (.ident .time) (.const a) (.const b)) r = onTime (fun v => vge v a && vle v b) r := by
   cases h : r.t <;> simp [sel, ev, val, cmp2, onTime, h, and3]
   rename_i v
-  cases vge v a <;> cases vle v b <;> simp [and3]
+  cases vge v a <;> cases vle v b <;> simp
 
 theorem varEq_aux (ns : Bool) (x q : Option α) (h : ns = true ∨ q.isSome = true) :
     ((if ns = true then some (decide (x = q)) else cmp2 veq x q) == some true) = decide (x = q) := by
